@@ -671,6 +671,14 @@ impl<'a, 'ast> Visit<'ast> for Rewriter<'a> {
                         && matches!(self.call_stack.last().map(|s| s.as_str()), Some("map") | Some("and_then") | Some("unwrap_or_else") | Some("map_err") | Some("filter") | Some("ok_or_else") | Some("map_or")) => {
                         // a combinator closure is ordinary code of the enclosing function: it stays (Verus checks it as exec code)
                         self.notes.push(format!("closure #{} at {}:{} kept (combinator argument)", n, self.src.rel, self.src.line_of(cs)));
+                        // R18: a `_` parameter gets a name (Verus accepts only variables as closure parameters); nothing can refer to it
+                        for (k, inp) in c.inputs.iter().enumerate() {
+                            if let syn::Pat::Wild(w) = inp {
+                                let (ws, we) = self.src.range(w.span());
+                                self.edit(ws, we, format!("unused{}__", k), 0);
+                                self.notes.push(format!("R18 closure #{} parameter `_` named", n));
+                            }
+                        }
                         visit::visit_expr(self, e);
                         return;
                     }
